@@ -118,7 +118,7 @@ func SpecReplyTruth(reply interface{}) bool { panic("abstract spec function") }
 //@   ghost var nDel mathint
 //@   ghost var nPexpire mathint
 //@   requires nonnil: rr != nil && e != nil && rr.Client != nil && e.ObjectParser != nil
-//@   modifies e.Key, rr.skippedKey, rr.skipping, probed, expanded, reqs, lastCmd, lastNArgs, lastA1, lastA2, lastA3, lastA4, lastReply, nDel, nPexpire
+//@   modifies e.Key, rr.skippedKey, rr.skipping, probed, expanded, askedReplace, reqs, lastCmd, lastNArgs, lastA1, lastA2, lastA3, lastA4, lastReply, nDel, nPexpire
 //@   set probed = ite(exist, 1, 0) after store exist
 //@   set probed = ite(err#2 != nil, 0 - 1, probed) after store err#2
 //@   ensures ignore_keeps_existing_key: probed == 1 && rr.KeyExists == "ignore" ==> err == nil && expanded == old(expanded) && nPexpire == old(nPexpire) && nDel == old(nDel)
@@ -129,8 +129,13 @@ func SpecReplyTruth(reply interface{}) bool { panic("abstract spec function") }
 //@   ensures the_other_chunks_of_an_ignored_value_are_skipped: old(!rdb.SpecFirstBin(e) && rdb.SpecSplit(e.ObjectParser) && rdb.SpecObjType(e.ObjectParser) != rdb.RdbObjectFunction && rdb.SpecObjType(e.ObjectParser) != rdb.RdbObjectAux && rdb.SpecObjType(e.ObjectParser) != rdb.RdbObjectModule && skips(rr, e.Key)) ==> err == nil && expanded == old(expanded) && reqs == old(reqs)
 //@   assert at call Do: policy_requests_address_the_entrys_key: len(args) > 0 && (cmd == "exists" || cmd == "del" || cmd == "pexpire" || cmd == "restore") ==> args[0] == dyn(e.Key)
 //@   assert at call restoreBigRdbEntry: native_fallback_after_a_refused_replace_deletes_the_old_value_first: probed == 0 - 1 && reqs >= old(reqs) + 2 ==> nDel == old(nDel) + 1
+//   askedReplace  1 when the last RESTORE request carried REPLACE (whatever made it carry it)
+//@   ghost var askedReplace mathint = 0
+//@   set askedReplace = ite(cmd == "restore", ite(exists i int :: 0 <= i && i < len(args) && args[i] == dyn("REPLACE"), 1, 0), askedReplace) at call Do
+//@   assert at call restoreBigRdbEntry: native_fallback_does_what_the_refused_restore_replace_would_have_done: probed == 0 - 1 && askedReplace == 1 ==> nDel == old(nDel) + 1
 //@   ensures native_fallback_applies_the_expiry: err == nil && probed == 0 - 1 && expanded == old(expanded) + 1 && old(e.ExpireAt) != 0 ==> nPexpire == old(nPexpire) + 1
 //@   loop 1:
 //@     invariant restore_path: fresh(params) && probed == 0 - 1 && expanded == old(expanded) && nDel == old(nDel) && nPexpire == old(nPexpire)
 //@     invariant replace_is_remembered: reqs >= old(reqs) && (replace <==> reqs > old(reqs))
+//@     invariant the_flag_says_whether_the_request_carries_replace: (replace ==> len(params) >= 1 && params[len(params) - 1] == dyn("REPLACE")) && (!replace ==> (forall i int :: 0 <= i && i < len(params) ==> params[i] != dyn("REPLACE")))
 //@     invariant restore_addresses_the_entrys_key: len(params) > 0 && params[0] == dyn(e.Key)
